@@ -457,6 +457,31 @@ impl Drop for World {
     }
 }
 
+/// Crash + restart of the pairing store: a second store loaded from (a copy of) the pairing file on the same clock
+/// must not give a revoked or expired token a role again.
+fn restart_check(w: &World, tokens: &[TokenRec], opi: usize, after: &str, stats: &mut Stats) -> Result<(), Violation> {
+    let copy = w.pairing_path.with_extension("restart-copy.json");
+    let _ = std::fs::remove_file(&copy);
+    if std::fs::copy(&w.pairing_path, &copy).is_err() {
+        return Ok(());
+    }
+    let clock = w.clock.clone();
+    let reloaded = PairingStore::with_clock(copy.clone(), Arc::new(move || clock.load(Ordering::SeqCst)));
+    let now = w.now();
+    for t in tokens {
+        if (t.revoked || now > t.expires_at) && reloaded.validate_with_role(&t.token).is_some() {
+            let _ = std::fs::remove_file(&copy);
+            return Err(Violation::new(
+                format!("pairing/{}-token-valid-after-restart", if t.revoked { "revoked" } else { "expired" }),
+                format!("op {opi} ({after}): a pairing store reloaded from the file gives token id {} ({}, expiry {} s before now) a role again", t.id, if t.revoked { "revoked" } else { "expired" }, now.saturating_sub(t.expires_at)),
+            ));
+        }
+    }
+    stats.inc("fault.restart_of_pairing_store");
+    let _ = std::fs::remove_file(&copy);
+    Ok(())
+}
+
 fn normalise_msg(msg: &str) -> String {
     let mut out = String::new();
     let mut last_digit = false;
@@ -604,7 +629,7 @@ fn valid_params(rng: &mut Rng, ty: &str, eval_hang_ok: bool, rot: &mut u32) -> O
         "bytecode.reload" => json!({"bytes": *rng.pick(&["AAEC", "U1RCQw==", ""])}),
         "pair.claim" => json!({"code": "$CODE", "role": *rng.pick(&["viewer", "operator", "engineer", "admin"])}),
         "pair.revoke" => json!({"id": *rng.pick(&["$PID3", "$PID4", "$PID5", "$PID6", "$PID7", "all", "pair-0"])}),
-        "config.set" => match rng.below(14) {
+        "config.set" => match rng.below(17) {
             0 => json!({"log.level": *rng.pick(&["debug", "info"])}),
             1 => json!({"watchdog.enabled": rng.bool()}),
             2 => json!({"watchdog.timeout_ms": rng.range(1, 5000)}),
@@ -621,6 +646,11 @@ fn valid_params(rng: &mut Rng, ty: &str, eval_hang_ok: bool, rot: &mut u32) -> O
             10 => json!({}),
             11 => json!({"web.enabled": rng.bool(), "discovery.enabled": rng.bool()}),
             12 => json!({"log.level": "warn", "control.mode": "debug"}),
+            14 | 15 => json!({"control.mode": *rng.pick(&["debug", "production"]), "control.debug_enabled": rng.bool()}),
+            16 => {
+                *rot += 1;
+                json!({"control.auth_token": format!("adm-token-{rot}"), "control.debug_enabled": rng.bool(), "control.mode": *rng.pick(&["debug", "production"])})
+            }
             _ => json!({"mesh.publish": ["a", "b"], "mesh.subscribe": {"t": "a"}}),
         },
         _ => {
@@ -1054,6 +1084,8 @@ impl Check for C18Check {
                         w.clock.store(target, Ordering::SeqCst);
                         stats.sim_time_ns += u128::from(target - now) * 1_000_000_000;
                         stats.inc("fault.clock_jump");
+                        // the endpoint may be restarted at any time, e.g. long after a token expired
+                        restart_check(&w, &tokens, opi, "after a clock jump", stats)?;
                     }
                     before = probe(&w);
                     stats.log(&format!("{opi}:clock:{}", target - CLOCK_START));
@@ -1244,25 +1276,30 @@ impl Check for C18Check {
                         }
                     }
                 }
-                // crash + restart right after the acknowledged revocation: a second store loaded from (a copy of)
-                // the pairing file, on the same clock, must not give a revoked or expired token a role again
-                let copy = w.pairing_path.with_extension("restart-copy.json");
-                let _ = std::fs::remove_file(&copy);
-                if std::fs::copy(&w.pairing_path, &copy).is_ok() {
-                    let clock = w.clock.clone();
-                    let reloaded = PairingStore::with_clock(copy.clone(), Arc::new(move || clock.load(Ordering::SeqCst)));
-                    let now = w.now();
-                    for t in &tokens {
-                        if (t.revoked || now > t.expires_at) && reloaded.validate_with_role(&t.token).is_some() {
-                            let _ = std::fs::remove_file(&copy);
+                restart_check(&w, &tokens, opi, "after an acknowledged pair.revoke", stats)?;
+            }
+            if ok && tnorm == "config.set" {
+                // an acknowledged lock-down must be in force: the gates the later requests are judged by come from it
+                if let Some(p) = params.as_ref().and_then(Json::as_object) {
+                    if let Some(b) = p.get("control.debug_enabled").and_then(Json::as_bool) {
+                        let real = w.state.debug_enabled.load(Ordering::SeqCst);
+                        if real != b {
                             return Err(Violation::new(
-                                "pairing/revoked-token-valid-after-restart",
-                                format!("op {opi}: pair.revoke {:?} was acknowledged, but a pairing store reloaded from the file gives token id {} ({}) a role again", params.as_ref().map(|p| p["id"].clone()), t.id, if t.revoked { "revoked" } else { "expired" }),
+                                "config/acknowledged-debug-flag-not-applied",
+                                format!("op {opi}: config.set {} was acknowledged, control.debug_enabled is {real}", Json::Object(p.clone())),
                             ));
                         }
                     }
-                    stats.inc("fault.restart_after_revocation");
-                    let _ = std::fs::remove_file(&copy);
+                    if let Some(m) = p.get("control.mode").and_then(Json::as_str) {
+                        let real = format!("{:?}", *w.state.control_mode.lock().unwrap()).to_ascii_lowercase();
+                        if (m == "debug" || m == "production") && real != m {
+                            return Err(Violation::new(
+                                "config/acknowledged-mode-not-applied",
+                                format!("op {opi}: config.set {} was acknowledged, control.mode is {real}", Json::Object(p.clone())),
+                            ));
+                        }
+                    }
+                    stats.inc("probe.acknowledged_config_read_back");
                 }
             }
             let configured_after: Option<String> = w.state.auth_token.lock().unwrap().clone().map(|t| t.to_string());
